@@ -424,6 +424,12 @@ def run_entries(case, rng, api_hook=None):
                                          use_sql_from_cache=use_cache))
         collect("realtime.compare_records:" + ("cached_sql" if use_cache else "fresh_sql"), out, Lrows, Rrows, tl, tr, True)
 
+    # ---- realtime sequences over models that differ ONLY in m / u / TF configuration, given in every form the
+    #      API accepts, with the SQL cache on: each call must be scored with ITS model ----
+    if api_hook:
+        api_hook(api_rt, "realtime_sequence")
+    rt_seq = realtime_sequences(case, rng, api_rt, byid, ids, lnk, data_tf, tfv_rows)
+
     # ---- find_matches_to_new_records ----
     if api_hook:
         api_hook(api, "find_matches")
@@ -469,7 +475,17 @@ def run_entries(case, rng, api_hook=None):
         pdf = pd.DataFrame(sub, columns=cols).astype({"unique_id_l": "int64", "unique_id_r": "int64"})
         if lnk:
             pdf = pdf.astype({"source_dataset_l": "string", "source_dataset_r": "string"})
-        dfp = lk.table_management.register_table(pdf, "c10_pred", overwrite=True)
+        # the supplied predictions are either an ordinary registered table or registered through
+        # register_table_predict (cached under the templated name __splink__df_predict) - and then either passed or not
+        pred_mode = rng.choice(["plain", "register_table_predict", "register_table_predict", "register_table_predict_not_passed"])
+        if pred_mode == "plain":
+            dfp = lk.table_management.register_table(pdf, "c10_pred", overwrite=True)
+        else:
+            dfp = lk.table_management.register_table_predict(pdf, overwrite=True)
+            if pred_mode.endswith("not_passed"):
+                dfp, sub = None, []
+    else:
+        pred_mode = "none"
     me_thr = case["me_thr"]
     meout = su.records(lk.inference._score_missing_cluster_edges(dfc, dfp, threshold_match_weight=me_thr))
     for r in meout:
@@ -478,7 +494,7 @@ def run_entries(case, rng, api_hook=None):
                         frozenset((il, ir))))
         tfmeta.append((("data",), ("data",)))
     names = sorted({r["source_dataset"] for r in rows})
-    me = {"thr": me_thr, "clusters": [cl[ident(r)] for r in rows], "ranks": composite_ranks(case),
+    me = {"predictions": pred_mode, "supplied": dfp is not None, "thr": me_thr, "clusters": [cl[ident(r)] for r in rows], "ranks": composite_ranks(case),
           "dss": [names.index(r["source_dataset"]) for r in rows], "link_only": spec["link_type"] == "link_only",
           "preds": [(exidx[out_ident(case, r, "l")], exidx[out_ident(case, r, "r")]) for r in sub] if dfp is not None else [],
           "impl": [(exidx[out_ident(case, r, "l")], exidx[out_ident(case, r, "r")]) for r in meout],
@@ -491,7 +507,119 @@ def run_entries(case, rng, api_hook=None):
     only = {c: set(absent_lookup_values(case, c)) for c in lookups}
     n_planted = sum(1 for e in entries if e[0] != "predict" and any(e[k].get(c) in only[c] for k in (1, 2) for c in only))
     assert len(tfmeta) == len(entries)
-    return {"n_planted": n_planted, "tfmeta": tfmeta, "entries": entries, "outcomes": ocs, "predmap": predmap, "fm": fm, "me": me, "linker": lk}
+    rt_oc = X.outcomes_rows(case, lk, [(e[2], e[3]) for e in rt_seq["rows"]])
+    rt_seq["outcomes"] = rt_oc
+    return {"n_planted": n_planted, "tfmeta": tfmeta, "rt_seq": rt_seq, "entries": entries, "outcomes": ocs, "predmap": predmap, "fm": fm, "me": me, "linker": lk}
+
+
+def vary_parameters(rng, spec):
+    """a model with the same columns, comparison types and level conditions whose m / u / TF weight / minimum-u
+    (and sometimes the TF flag of a level) differ; parameters that the first model set through a setter are
+    given to the constructors here"""
+    import copy
+    mv, uv = (G.M_T, G.U_T) if spec.get("mode") == "T" else (G.M_P2, G.U_P2) if spec.get("mode") == "P2" else (G.M_X, G.U_X)
+    b = copy.deepcopy(spec)
+    for c in b["comparisons"]:
+        for lv in c["levels"]:
+            lv["u_via"], lv["w_via"] = "creator", "creator"
+            if lv["kind"] == "null":
+                continue
+            lv["m"] = rng.choice([v for v in mv if v != lv["m"]] or mv)
+            if Fr(lv["u"]) != 0:
+                lv["u"] = rng.choice([v for v in uv if v != lv["u"]] or uv)
+            if lv["tf_col"] and c["route"] not in ("lib_exact", "lib_lev", "lib_fnsn"):
+                if Fr(lv["w"]) != 0:
+                    lv["w"] = rng.choice([w for w in G.W_ORD if w != lv["w"]])
+                lv["min_u"] = rng.choice(G.MINU)
+    # library comparisons: the term_frequency_adjustments flag itself may differ
+    for c in b["comparisons"]:
+        if c["route"] in ("lib_exact", "lib_lev") and rng.random() < 0.5:
+            on = any(lv["tf_col"] for lv in c["levels"])
+            for lv in c["levels"]:
+                if lv["kind"] == "exact":
+                    lv["tf_col"] = None if on else c["name"]
+    b["tf_cols_all"] = sorted(set(spec["tf_cols"]) | {lv["tf_col"] for c in b["comparisons"] for lv in c["levels"] if lv["tf_col"]})
+    b["tf_cols"] = sorted({lv["tf_col"] for c in b["comparisons"] for lv in c["levels"] if lv["tf_col"]})
+    return b
+
+
+def as_creators(spec):
+    import copy
+    a = copy.deepcopy(spec)
+    for c in a["comparisons"]:
+        for lv in c["levels"]:
+            lv["u_via"], lv["w_via"] = "creator", "creator"
+    return a
+
+
+def settings_in_form(spec, form, dialect, tmpdir, tag):
+    """the same model as: dict holding creator objects | SettingsCreator | plain (json) dict | path string | Path"""
+    import json
+    from pathlib import Path
+    sc = G.settings_creator(spec, ["1=1"], dialect)
+    if form == "creator_dict":
+        return {"link_type": spec["link_type"], "comparisons": G.comparison_creators(spec, dialect),
+                "blocking_rules_to_generate_predictions": ["1=1"], "probability_two_random_records_match": G.fl(spec["prior"]),
+                "retain_intermediate_calculation_columns": True, "retain_matching_columns": True}
+    if form == "settings_creator":
+        return sc
+    d = sc.create_settings_dict(dialect)
+    if form == "plain_dict":
+        return d
+    p = Path(tmpdir) / f"c10_model_{tag}.json"
+    p.write_text(json.dumps(d))
+    return str(p) if form == "path_str" else p
+
+
+def realtime_sequences(case, rng, api_rt, byid, ids, lnk, data_tf, tfv_rows):
+    import tempfile
+    from splink.internals.realtime import compare_records
+    spec = case["spec"]
+    models = [as_creators(spec), vary_parameters(rng, spec)]
+    if rng.random() < 0.5:
+        models.append(vary_parameters(rng, spec))
+    alltf = sorted(set().union(*[set(m.get("tf_cols_all", m["tf_cols"])) for m in models]))
+    rows = []          # (model index, entry name, left, right, tfv, engine record)
+    keep = []          # objects that must stay alive (SettingsCreator cache entries are weak references)
+    forms = rng.sample(["creator_dict", "creator_dict", "settings_creator", "plain_dict", "path_str", "path"], 3)
+    with tempfile.TemporaryDirectory(prefix="c10rt_") as tmp:
+        for fi, form in enumerate(forms):
+            objs = [settings_in_form(m, form, case["backend"], tmp, f"{fi}_{k}") for k, m in enumerate(models)]
+            keep.append(objs)
+            order = [0, 1] + ([2] if len(models) > 2 else []) + [0, 1]
+            for mi in order:
+                i, j = rng.sample(ids, 2)
+                rl, rr = byid[i], byid[j]
+                # tf values of the data for every TF column any of the models uses
+                tl = {c: (data_tf[c][i] if c in data_tf else tf_for_value(spec, case["rows"], case["lookups"], c, rl.get(c))) for c in alltf}
+                tr = {c: (data_tf[c][j] if c in data_tf else tf_for_value(spec, case["rows"], case["lookups"], c, rr.get(c))) for c in alltf}
+                out = su.records(compare_records(frame_of([rl], lnk, [tl]), frame_of([rr], lnk, [tr]), objs[mi], api_rt,
+                                                 use_sql_from_cache=True))
+                assert len(out) == 1
+                m = models[mi]
+                rows.append((mi, f"realtime.compare_records:{form}", rl, rr, {c: (tl[c], tr[c]) for c in m["tf_cols"]}, out[0]))
+    return {"models": models, "rows": rows, "forms": forms}
+
+
+def scoring_terms_rt(case, res):
+    """one Coq case per model of the realtime sequences: its rows against ITS parameters"""
+    out = []
+    seq = res["rt_seq"]
+    for mi, m in enumerate(seq["models"]):
+        ent = [(e, oc) for e, oc in zip(seq["rows"], seq["outcomes"]) if e[0] == mi]
+        powtbl, pterms, infos = {}, [], []
+        for e, oc in ent:
+            _, name, rl, rr, tfv, rec = e
+            py = X.py_score(m, oc, tfv)
+            X.pow_rows(py, powtbl)
+            t, bad = X.pair_term(m, oc, tfv, rec)
+            pterms.append(t)
+            infos.append({"entry": name, "model": mi, "pair": (ident(rl), ident(rr)), "py": py, "left": rl, "right": rr,
+                          "tf": {c: [None if v is None else str(v) for v in tfv[c]] for c in tfv}, "rec": rec})
+        term = (f"({coq_Q(Fr(m['prior']))}, {G.cmps_term(m)}, {X.powtbl_term(powtbl)}, (@None Q), (@None Q), false, "
+                + coq_list(pterms, "ipair") + ")")
+        out.append((term, infos, m))
+    return out
 
 
 def scoring_term(case, res):
